@@ -46,6 +46,9 @@ package peer
 //@   requires peer != nil && PG(peer)
 //@   ensures  [index] int($r0) == int(chunk) / (int(peer.Pieces.PieceSize())/16384)
 //@   ensures  [begin] int($r1) == (int(chunk) % (int(peer.Pieces.PieceSize())/16384)) * 16384
+//@   ensures  [ident] int64($r0)*int64(peer.Pieces.PieceSize()) + int64($r1) == int64(chunk)*16384
+//@   ensures  [inpiece] int($r1) < int(peer.Pieces.PieceSize()) && $r1%16384 == 0
+//@   ensures  [inrange] int64(chunk)*16384 < peer.Pieces.Length() ==> int($r0) < NP(peer)
 //@   props    C11 C09
 
 //@ func toChunk
@@ -58,3 +61,81 @@ package peer
 //@   ensures  [full] int64(chunk)*16384 + 16384 <= peer.Pieces.Length() ==> $r0 == 16384
 //@   ensures  [last] int64(chunk)*16384 < peer.Pieces.Length() && int64(chunk)*16384 + 16384 > peer.Pieces.Length() ==> int64($r0) == peer.Pieces.Length() - int64(chunk)*16384
 //@   props    C11 C09
+
+// NC: number of 16 KiB blocks of the torrent.
+//@ spec NC(peer *Peer) int
+//@   body int((peer.Pieces.Length() + 16383) / 16384)
+//@ spec QOK(peer *Peer) bool
+//@   import "github.com/jech/storrent/peer/requests"
+//@   body requests.ROK(&peer.requests) && requests.AllBelow(&peer.requests, NC(peer))
+//@ spec NSent(peer *Peer) int
+//@   import "github.com/jech/storrent/peer/requests"
+//@   body requests.NSent(&peer.requests)
+
+//@ spec QRBitsQ(peer *Peer) bool
+//@   import "github.com/jech/storrent/peer/requests"
+//@   body requests.RBitsQ(&peer.requests)
+//@ spec QRBitsR(peer *Peer) bool
+//@   import "github.com/jech/storrent/peer/requests"
+//@   body requests.RBitsR(&peer.requests)
+//@ spec QRDistQ(peer *Peer) bool
+//@   import "github.com/jech/storrent/peer/requests"
+//@   body requests.RDistQ(&peer.requests)
+//@ spec QRDistR(peer *Peer) bool
+//@   import "github.com/jech/storrent/peer/requests"
+//@   body requests.RDistR(&peer.requests)
+//@ spec QRDistQR(peer *Peer) bool
+//@   import "github.com/jech/storrent/peer/requests"
+//@   body requests.RDistQR(&peer.requests)
+//@ spec QRSep(peer *Peer) bool
+//@   import "github.com/jech/storrent/peer/requests"
+//@   body requests.RSep(&peer.requests)
+//@ spec QBelow(peer *Peer) bool
+//@   import "github.com/jech/storrent/peer/requests"
+//@   body requests.AllBelow(&peer.requests, NC(peer))
+
+//@ func isCongested
+//@   requires peer != nil
+//@ func drop
+//@   trusted
+//@   requires peer != nil
+//@ func isFast
+//@   requires peer != nil
+
+// maybeRequest: every Request handed to write names an existing piece, an
+// aligned offset and the exact block length, lies inside the torrent (the
+// precondition of write); it is only sent while unchoked or for an
+// allowed-fast piece and only for a piece the peer advertises (assertcall);
+// the queue invariant (no block twice) is kept, and the number outstanding
+// never grows beyond max(2, reqQ).
+//@ spec PeerHas(peer *Peer, i int) bool
+//@   import "github.com/jech/storrent/bitmap"
+//@   body bitmap.Bit(peer.bitmap, i)
+//@ func maybeRequest
+//@   requires peer != nil && PG(peer) && QOK(peer)
+//@   ghostvar Ghost_fast bool
+//@   atcall   isFast :: true :: Ghost_fast = $r0
+//@   ghostvar Ghost_i int
+//@   atcall   fromChunk :: true :: Ghost_i = int($r0)
+//@   modifies *
+//@   assertcall [advertised] peer.write :: PeerHas(peer, Ghost_i)
+//@   assertcall [allowed]    peer.write :: peer.unchoked != 0 || Ghost_fast
+//@   ensures  [rbitsq] QRBitsQ(peer)
+//@   ensures  [rbitsr] QRBitsR(peer)
+//@   ensures  [rdistq] QRDistQ(peer)
+//@   ensures  [rdistr] QRDistR(peer)
+//@   ensures  [rdistqr] QRDistQR(peer)
+//@   ensures  [rsep] QRSep(peer)
+//@   ensures  [below] QBelow(peer)
+//@   ensures  [depth] NSent(peer) <= max(old(NSent(peer)), max(2, peer.reqQ))
+//@   loop 1
+//@     invariant [pg] PG(peer)
+//@     invariant [rbitsq] QRBitsQ(peer)
+//@     invariant [rbitsr] QRBitsR(peer)
+//@     invariant [rdistq] QRDistQ(peer)
+//@     invariant [rdistr] QRDistR(peer)
+//@     invariant [rdistqr] QRDistQR(peer)
+//@     invariant [rsep] QRSep(peer)
+//@     invariant [below] QBelow(peer)
+//@     invariant [depth] NSent(peer) <= max(old(NSent(peer)), max(2, peer.reqQ))
+//@   props    C11
